@@ -28,6 +28,11 @@ PROFILES = ["control", "closures", "classes", "exceptions", "fibers", "iteration
 OPNAMES = None
 
 
+# ties between the function bodies translated from the Rust source on every run (Gen/Fns.lean) and the hand-written models
+THEOREM_MODULES.append("Yarel.Props.FnsTie.Compiler")
+REQUIRED_THEOREMS += ['patch_jump_tie', 'emit_loop_tie', 'patch_offset_at_tie']
+
+
 def opnames():
     global OPNAMES
     if OPNAMES is None:
